@@ -143,8 +143,13 @@ def decode_chunk_into(chunk, buf, block_size):
         if offset + 8 * gx * gy * gz > len(buf):
             raise InvalidFormatError("compressed_segmentation channel offset "
                                      "is too large (truncated file?)")
+        channel_buf = buf[offset:next_offset]
+        if len(channel_buf) < 8 * gx * gy * gz:
+            raise InvalidFormatError("compressed_segmentation channel offsets "
+                                     "are inconsistent (channel data too "
+                                     "short for the block headers)")
         _decode_channel_into(
-            chunk, channel, buf[offset:next_offset], block_size
+            chunk, channel, channel_buf, block_size
         )
 
     return chunk
